@@ -383,11 +383,15 @@ func specExtension(e string) (ok bool, name string) {
 func vfH_offer_variants() {
 	var lines []string
 	tier := vfParam("tier", 0)
-	if vfChoose(2) == 0 {
-		n := vfChoose(4 + 2*tier)
+	mode := vfChoose(2)
+	if f := vfParam("mode", -1); f >= 0 {
+		mode = f
+	}
+	if mode == 0 {
+		n := vfChoose(vfParam("NB", 4+2*tier))
 		lines = []string{vfString(n)}
 	} else {
-		nl := 1 + vfChoose(1+tier)
+		nl := 1 + vfChoose(vfParam("NL", 1+tier))
 		for k := 0; k < nl; k++ {
 			line := ""
 			nel := 1 + vfChoose(2)
@@ -408,7 +412,7 @@ func vfH_offer_variants() {
 					case 1:
 						line += "=10"
 					case 2:
-						line += "=\"" + vfString(1+tier) + "\""
+						line += "=\"" + vfString(vfParam("QL", 1+tier)) + "\""
 					}
 				case 2:
 					line += "x-webkit-deflate-frame"
